@@ -779,6 +779,15 @@ func (ex *Exec) addrOf(st *State, e *ast.UnaryExpr) *Val {
 	case *ast.CompositeLit:
 		return ex.compositeLit(st, x, true)
 	case *ast.Ident:
+		if ex.inSpec() {
+			if o, ok := st.names[x.Name]; ok {
+				if v, ok := st.vars[o]; ok && v.Boxed {
+					nv := *v
+					nv.Boxed = false
+					return &nv
+				}
+			}
+		}
 		if !ex.inSpec() {
 			if o := ex.Info.ObjectOf(x); o != nil && ex.boxed[o] {
 				if v, ok := st.vars[o]; ok && v.Boxed {
@@ -1125,12 +1134,22 @@ func (ex *Exec) compositeLit(st *State, e *ast.CompositeLit, addr bool) *Val {
 		}
 		return &Val{T: t, Term: arr}
 	case *types.Map:
+		ref := ex.newRef(st)
+		ks, es := ex.sortOf(u.Key()), ex.sortOf(u.Elem())
+		hn := "Map$" + smtName(ks) + "$" + smtName(es)
+		mh := ex.heap(st, hn, arrSort(SInt, arrSort(ks, es)))
+		inner := sel(mh, ref)
 		for _, el := range e.Elts {
 			if kv, ok := el.(*ast.KeyValueExpr); ok {
-				ex.expr(st, kv.Value)
+				k := ex.coerce(st, ex.expr(st, kv.Key), u.Key())
+				v := ex.coerce(st, ex.expr(st, kv.Value), u.Elem())
+				if k.Term != nil && v.Term != nil {
+					inner = store(inner, k.Term, v.Term)
+				}
 			}
 		}
-		return &Val{T: t, Term: ex.newRef(st)}
+		st.heaps[hn] = store(mh, ref, inner)
+		return &Val{T: t, Term: ref}
 	}
 	ex.unsupported(e.Pos(), "composite literal of "+t.String())
 	return &Val{T: t, Term: ex.fresh("lit", ex.sortOf(t))}
